@@ -20,8 +20,9 @@ from typing import Any, Callable, Dict, List, Optional
 from . import tlc as tlcmod
 from .tlc import MachineryError, TLCResult, VERIF, WORK
 
-EVIDENCE = VERIF / "evidence"
-REPLAYS = VERIF / "replays"
+_OUT = Path(os.environ["VERIF_SCRATCH"]) if os.environ.get("VERIF_SCRATCH") else VERIF
+EVIDENCE = _OUT / "evidence"
+REPLAYS = _OUT / "replays"
 FINDINGS = VERIF / "known_findings.json"
 
 
